@@ -135,7 +135,7 @@ class Engine:
         if kind == "beyond":
             return max(room, 0.0) + rng.choice([0.01, 0.25, 1.0, 1e-6 * max(room, 1.0), 1e-9, 100.0])
         if kind == "huge":
-            return rng.choice([1e300, 1e18, 7158279.0])
+            return rng.choice([1e300, 1e18, 7158279.0, 10**20, 2**64, 10**30])  # floats and Python integers beyond 64 bit
         if kind == "inf":
             return math.inf
         if kind == "nan":
@@ -246,7 +246,26 @@ class Engine:
               "_fault": fault, "_shapes": [shp, vshp]}
         if adding:
             if rng.random() < self.profile["comps"]:
-                op["comps"] = enc(self.comps_for(n))
+                comps = self.comps_for(n)
+                for i, (wid_, _idx) in enumerate(ws):
+                    # now and then the incoming liquid is *almost* what the well already holds (another lot of the
+                    # same mixture, 2 ppm off): it is still a different liquid
+                    if rng.random() < 0.2:
+                        try:
+                            have = self.world.lw[name].get_well_composition(wid_)
+                        except Exception:
+                            have = None
+                        if have and len(have) >= 2:
+                            ks = sorted(have)
+                            a_, b_ = ks[0], ks[1]
+                            d_ = float(have[a_]) * 2e-6
+                            if float(have[b_]) > d_ > 0 and all(math.isfinite(float(x)) for x in have.values()):
+                                near_ = {k_: float(x) for k_, x in have.items()}
+                                near_[a_] += d_
+                                near_[b_] -= d_
+                                comps[i] = near_
+                                self.ctx.count("incoming_liquid_almost_equal_to_the_content")
+                op["comps"] = enc(comps)
             else:
                 op["comps"] = None
         if kind in ("aspirate", "dispense") and rng.random() < self.profile.get("wl_kwargs", 0):
@@ -296,6 +315,12 @@ class Engine:
                 else:
                     lim = min(lim, self.wlmax * rng.choice([1.5, 2, 3, 5, 12, 30]))
                 v = self._class_value(lim * rng.choice([0.5, 0.9, 1.0])) if lim > 0 else 0.0
+                if v > self.wlmax and rng.random() < 0.15:
+                    # a hair above a whole number of steps (the last partition is tiny but real)
+                    k_ = max(1, int(v // self.wlmax))
+                    cand = k_ * self.wlmax + rng.choice([4e-4, 1e-4, 1e-5, 2e-3])
+                    if cand <= min(avail, room):
+                        v = cand
             else:
                 side = rng.choice(["src", "dst"])
                 v = self.aim(avail if side == "src" else room, a)
@@ -413,6 +438,8 @@ class Engine:
             rng.shuffle(ws)  # wells in any order (the tracking must still charge well i with volume i)
         n = len(ws)
         tips = sorted(rng.sample(range(1, 9), n))
+        if rng.random() < 0.3:
+            rng.shuffle(tips)  # the tips in any order: which tip serves which well is the command's business, not the ledger's
         aims, fault = self.pick_aims(n)
         cur = self.cur(name)
         adding = kind == "evo_dispense"
